@@ -747,6 +747,57 @@ def written(m, spec, seed, weights=None):
     return text, list(order)
 
 
+def closure_pairs(text):
+    """(i, j, symbol) for every ring-closure bond of a SMILES text: positions of the two atoms in the string, and whether one of the
+    two closure digits carries '=' (plain scan of chython's own token list)"""
+    from chython.files.daylight.tokenize import _tokenize
+    out, opened, idx, prev = [], {}, -1, None
+    for ty, v in _tokenize(text.split(' ')[0]):
+        if ty in (0, 5, 8):
+            idx += 1
+            prev = None
+        elif ty in (1, 9):
+            prev = (ty, v)
+        elif ty == 6:
+            if v in opened:
+                i, pb = opened.pop(v)
+                out.append((i, idx, 2 if (pb == (1, 2) or prev == (1, 2)) else 1))
+            else:
+                opened[v] = (idx, prev)
+            prev = None
+        else:
+            prev = None
+    return out
+
+
+def stereo_defect_class(m, m2, f, text, order):
+    """stable keys of the recorded stereo defects a differing configuration falls into ([] = none of them)"""
+    keys = []
+    try:
+        delta = stereo_signs(m, f) ^ stereo_in(m2, f, m)
+    except Exception:
+        return keys
+    inv = {v: k for k, v in f.items()}
+    pos = {n: i for i, n in enumerate(order)}
+    # first written atom of every component but the first
+    comp_first = set()
+    for comp in m.connected_components:
+        first = min(comp, key=pos.__getitem__)
+        if pos[first] != 0:
+            comp_first.add(first)
+    for e in delta:
+        if e[0] == 'th' and inv.get(e[1]) in comp_first and m._atoms[inv[e[1]]].implicit_hydrogens:
+            keys.append('chirality-first-atom-of-later-component')
+    try:
+        closures = {frozenset((order[i], order[j])) for i, j, o in closure_pairs(text) if o == 2}
+    except Exception:
+        closures = set()
+    for e in delta:
+        if e[0] == 'ct' and frozenset(inv.get(x) for x in e[1]) in closures:
+            keys.append('cis-trans-on-ring-closure-double-bond')
+    return keys
+
+
 def known_class(m, spec):
     """stable keys of the recorded defect classes a molecule / style falls into"""
     keys = []
@@ -810,7 +861,8 @@ def roundtrip(ck, name, m, spec, seed, rd_ref=None, weights=None):
         except Exception:
             pass
     if diffs:
-        ck.counterexample(f'roundtrip:{name}:{spec}', 'write -> read changes the molecule: ' + '; '.join(diffs[:4]),
+        sk = stereo_defect_class(m, m2, f, text, order) if any(d.startswith('stereo configuration') for d in diffs) else []
+        ck.counterexample(sk[0] if sk else f'roundtrip:{name}:{spec}', 'write -> read changes the molecule: ' + '; '.join(diffs[:4]),
                           {'molecule': name, 'spec': spec, 'text': text, 'written_order': order}, diffs[:6], 'identical along the written order',
                           'direct attribute comparison along smiles_atoms_order; stereo through _translate_*_sign on mapped neighbours',
                           replay_py=replay)
@@ -973,7 +1025,12 @@ def search_stereoisomers(ck, mols, max_labels):
                 ck.count('injectivity:equal-string-pairs')
                 r = iso_exists(first, c)
                 if r is False:
-                    ck.counterexample(f'collision-stereo:{name}', 'two different stereoisomers receive the same canonical string',
+                    try:
+                        ring_db = any(o == 2 for *_, o in closure_pairs(s)) and ('/' in s or '\\' in s)
+                    except Exception:
+                        ring_db = False
+                    ck.counterexample('cis-trans-on-ring-closure-double-bond' if ring_db else f'collision-stereo:{name}',
+                                      'two different stereoisomers receive the same canonical string',
                                       {'molecule': name, 'labels_flipped_a': group[0][0], 'labels_flipped_b': mask, 'atoms': atoms, 'bonds': bonds},
                                       s, 'different strings', 'backtracking isomorphism with stereo compared through _translate_*_sign',
                                       replay_py=f"from chython import smiles\nm = smiles({name.split('#')[0]!r})\nprint(str(m))")
@@ -1097,6 +1154,15 @@ def known_probes(ck):
         roundtrip(ck, '[Si]:1:C:C:C:C:C:1', m, '', 0)
     except Exception:
         pass
+    # a stereo centre with an implicit hydrogen written first in a later component; a stereo double bond written as ring-closure bond
+    for smi in ('O.[C@H](F)(Cl)Br', 'O.N[C@H](C)O'):
+        m = smiles(smi)
+        for k in range(12):
+            roundtrip(ck, smi, m, 'r', f'probe:{k}')
+    for smi in ('C/C1=C/C=C/CCCCCC1', 'C/C1=C\\C=C/CCCCCC1'):
+        m = smiles(smi)
+        roundtrip(ck, smi, m, '', 0)
+    search_stereoisomers(ck, [('C/C1=C/C=C/CCCCCC1', smiles('C/C1=C/C=C/CCCCCC1'))], 4)
     m = MoleculeContainer()
     m.add_atom('C', 10000)
     m.add_atom('O', 12)
